@@ -83,7 +83,7 @@ func families(quick bool) []family {
 	keys := []string{"a", "b", ""}
 	subs := []string{"x", "y", ""}
 	fs := []family{
-		{name: "counter", alpha: counterAlphabet(incs), maxLen: pick(4, 6), ordered: true, run: one(runCounter)},
+		{name: "counter", alpha: counterAlphabet(incs), maxLen: pick(4, 5), ordered: true, run: one(runCounter)},
 		{name: "subkey", alpha: pairAlphabet(keys, subs, incs, "\x00"), maxLen: pick(3, 4), ordered: true, run: one(runSubKey)},
 	}
 	for _, d := range []string{"\x00", "::"} {
@@ -105,7 +105,7 @@ func families(quick bool) []family {
 	}
 	for _, cfg := range []string{"keep", "keep-reverse", "nokeep"} {
 		cfg := cfg
-		fs = append(fs, family{name: "numerical", config: cfg, alpha: nums, maxLen: pick(6, 7), ordered: true,
+		fs = append(fs, family{name: "numerical", config: cfg, alpha: nums, maxLen: pick(5, 6), ordered: true,
 			run: func(s []string) (result, []*fail) { return runNumerical(cfg, s) }})
 	}
 	return fs
@@ -448,7 +448,7 @@ func main() {
 				return b
 			}
 			return "real MatchCounter / SubKeyCounter / TableAggregator (delimiters NUL and '::') / AccumulatingGroup (3 programs: sumi without groups; 1 group with sumi, count, maxi, a column reference, a forward column reference, last value and concatenation; 2 groups) / MatchNumerical (keep, keep+reverse, no-keep): EVERY sample sequence of length 0.." +
-				pick("4 (counter), 3 (sub-key, table), 4 (accumulator), 6 (numerical)", "6 (counter), 4 (sub-key, table), 5 (accumulator), 7 (numerical)") +
+				pick("4 (counter), 3 (sub-key, table), 4 (accumulator), 5 (numerical)", "5 (counter), 4 (sub-key, table), 5 (accumulator), 6 (numerical)") +
 				" over keys {a,b,''} x sub-keys/rows {absent,x,y,''} x increments {absent,2,-1,0,zz,MaxInt64}" +
 				", numerical symbols " + pick("{0,1,2,-3,2.5,x}", "{0,1,2,-3,2.5,x,1e9,''}") +
 				"; each sequence is applied to a fresh object and every public accessor is compared with an independent fold after every prefix; sequences are enumerated as all distinct permutations of every multiset and the accessor states of all permutations are compared (order independence). Trim: every table on grids up to 2x3" + pick("", " and 3x2") + " with cells in {absent," + pick("2,-1", "2,-1,0") +
